@@ -1972,3 +1972,171 @@ func c12AttemptsCountedOut(c *Check, rule string) {
 		c.Fail(rule, "sites", token.NoPos, "anchor unresolved: the queue never adds to a wait group")
 	}
 }
+
+// ---- C03.R5e (= C11.R3e): the permit is given back under the key the session still knows.
+// Session.releaseLimits builds the keys of the per-source and per-address permits from the session's own state
+// (mailFrom, the connection of msgMeta). cleanSession calls it first and clears that state afterwards. With the order
+// turned round (C03U: "forget the envelope first"; C11V: the release moved to the end, the address read from another
+// field so that nothing dereferences nil) the sender domain's permit is released under the key "" – BucketSet.Release
+// finds no bucket and says nothing – and is never returned; a null-sender transaction in progress loses ITS permit to
+// somebody else's release. Decided for every function of the endpoint that calls releaseLimits: no store into a field
+// of the session that releaseLimits reads reaches the call.
+func c03ReleaseBeforeForgetting(c *Check, rule string) {
+	c.Rule(rule, "SMTP endpoint: no assignment to a field of the session that releaseLimits reads (the sender the source permit was taken under, the message metadata holding the peer address) reaches a call of releaseLimits in the same function – the permits are given back under the keys they were taken with, not under the cleared ones", 1)
+	p := c.P
+	rl := c.need(rule, smtpEndpRel, "Session", "releaseLimits")
+	if rl == nil {
+		return
+	}
+	info := rl.Info
+	recv := recvObjOf(rl.FI)
+	reads := map[*types.Var]bool{}
+	ast.Inspect(rl.FI.Decl.Body, func(x ast.Node) bool {
+		if sel, ok := x.(*ast.SelectorExpr); ok && recv != nil && objOf(info, sel.X) == recv {
+			if fv := fieldOf(info, sel); fv != nil {
+				reads[fv] = true
+			}
+		}
+		return true
+	})
+	if len(reads) == 0 {
+		c.Fail(rule, "releaseLimits:reads", rl.FI.Decl.Pos(), "undecided: releaseLimits reads no field of the session")
+		return
+	}
+	pk := p.Pkg(smtpEndpRel)
+	n := 0
+	p.AllFuncs([]*packagesPkg{pk}, func(fi *FuncInfo) {
+		if fi.Decl.Body == nil || fi.Obj == rl.FI.Obj || strings.HasSuffix(p.Fset.Position(fi.Decl.Pos()).Filename, "_test.go") {
+			return
+		}
+		fi = p.DeclOf(fi.Obj)
+		if fi == nil || fi.Decl.Body == nil {
+			return
+		}
+		fl := p.FlowOfFunc(fi)
+		var calls, stores []Pt
+		what := ""
+		for _, pt := range fl.Points() {
+			if pt.Node() == nil {
+				continue
+			}
+			for _, call := range callsAt(pt.Node()) {
+				if callee(info, call) == rl.FI.Obj {
+					calls = append(calls, pt)
+				}
+			}
+			if as, ok := pt.Node().(*ast.AssignStmt); ok {
+				for _, l := range as.Lhs {
+					if fv := fieldOf(info, l); fv != nil && reads[fv] {
+						stores = append(stores, pt)
+						what = fv.Name()
+					}
+				}
+			}
+		}
+		if len(calls) == 0 {
+			return
+		}
+		n++
+		c.SawFunc(fi.Name())
+		path, found := fl.Reach(Query{From: stores, Target: isPt(calls)})
+		c.Hold(rule, fi.Name()+":release-first", fi.Decl.Pos(), len(stores) == 0 || !found, "the session's "+what+" is assigned before releaseLimits is called ("+fl.Describe(path)+"): the release computes its keys from the new value – with the sender already cleared the per-source permit of the sender's domain is released under the key \"\" (no such bucket: nothing happens) and is never returned; after `source concurrency N` transactions of one domain every further one is answered 451")
+	})
+	if n == 0 {
+		c.Fail(rule, "callers", token.NoPos, "anchor unresolved: nothing calls releaseLimits")
+	}
+}
+
+// ---- C16.R16 (= C03.R11): a remembered reply belongs to the current MAIL.
+// With deferred sender rejection the session remembers the refusal of MAIL (already rendered by wrapErr for THAT
+// command: its SMTPUTF8 mangling decision, its message id) and answers every RCPT with it. Session.Mail therefore starts
+// clean: on every successful path that does not start the delivery at once the remembered reply is assigned. Left out
+// (C16U: "cleanSession clears it anyway" – but Reset only reaches cleanSession when a delivery is open, and after a
+// refused deferred start none is), the next transaction on the connection is answered with the previous one's reply: a
+// client that did not ask for SMTPUTF8 receives the non-ASCII text rendered for one that did.
+func c16RememberedReplyIsThisMails(c *Check, rule string) {
+	c.Rule(rule, "Session.Mail: every successful path that does not start the delivery itself assigns the session's remembered reply (deliveryErr) – a reply rendered for an earlier MAIL (its SMTPUTF8 decision, its message id) is never replayed to the next transaction", 1)
+	r := c.need(rule, smtpEndpRel, "Session", "Mail")
+	if r == nil {
+		return
+	}
+	info := r.Info
+	var resets []Pt
+	for _, pt := range r.F.Points() {
+		if pt.Node() == nil {
+			continue
+		}
+		if as, ok := pt.Node().(*ast.AssignStmt); ok {
+			for _, l := range as.Lhs {
+				if fv := fieldOf(info, l); fv != nil && fv.Name() == "deliveryErr" {
+					resets = append(resets, pt)
+				}
+			}
+		}
+		for _, call := range callsAt(pt.Node()) {
+			if isCall(info, call, "~/"+smtpEndpRel+".Session.startDelivery") || isCall(info, call, "~/"+smtpEndpRel+".Session.cleanSession") {
+				resets = append(resets, pt)
+			}
+		}
+	}
+	path, found := r.F.Reach(Query{From: r.Entry(), Inclusive: true, Target: r.IsSuccessReturn, Avoid: isPt(resets)})
+	c.Hold(rule, "Mail:remembered-reply-reset", r.FI.Decl.Pos(), !found, "Mail can accept the command without assigning the remembered reply ("+r.F.Describe(path)+"): after `MAIL` (SMTPUTF8) refused with a non-ASCII text, `RSET`, `MAIL` without SMTPUTF8, the RCPT of the second transaction is answered with the first one's rendered reply – non-ASCII bytes to a client that did not negotiate SMTPUTF8, and the wrong message id")
+}
+
+// ---- C16.R17: an SMTP error is temporary when its basic code says so.
+// exterrors.SMTPError.Temporary drives the queue's retry decision (IsTemporaryOrUnspec) and the converters' defaults.
+// The basic code is always set; the enhanced code may be absent (0.0.0 – what smtpconn builds for a next hop that does
+// not send enhanced codes). Decided by the enhanced class (C16V) a `451` without an enhanced code is permanent for
+// the queue – bounced at the first attempt – and stored as `451 5.0.0`.
+func c16TemporaryByBasicCode(c *Check, rule string) {
+	c.Rule(rule, "exterrors.SMTPError.Temporary is computed from the basic code (Code), never from the enhanced code, which can be unset: a 4yz failure without an enhanced code is retried", 1)
+	r := c.need(rule, "framework/exterrors", "SMTPError", "Temporary")
+	if r == nil {
+		return
+	}
+	info := r.Info
+	msg, n := "", 0
+	inspectNoLit(r.FI.Decl.Body, func(x ast.Node) bool {
+		ret, ok := x.(*ast.ReturnStmt)
+		if !ok || len(ret.Results) != 1 {
+			return true
+		}
+		n++
+		usesCode, usesEnch := false, false
+		var walk func(e ast.Expr, depth int)
+		walk = func(e ast.Expr, depth int) {
+			ast.Inspect(e, func(y ast.Node) bool {
+				switch z := y.(type) {
+				case *ast.SelectorExpr:
+					if fv := fieldOf(info, z); fv != nil {
+						switch fv.Name() {
+						case "Code":
+							usesCode = true
+						case "EnhancedCode":
+							usesEnch = true
+						}
+					}
+				case *ast.Ident:
+					if v, isVar := info.Uses[z].(*types.Var); isVar && !v.IsField() && depth < 3 {
+						for _, d := range defsOfObj(info, r.FI.Decl.Body, v) {
+							walk(d, depth+1)
+						}
+					}
+				}
+				return true
+			})
+		}
+		walk(ret.Results[0], 0)
+		if tv, has := info.Types[ret.Results[0]]; has && tv.Value != nil {
+			return true // a constant answer on a guarded path is judged by the guard – not followed here
+		}
+		if usesEnch || !usesCode {
+			msg = "line " + itoa(p0(c.P, ret.Pos())) + ": Temporary answers " + exprStr(ret.Results[0]) + ": an error `451` whose enhanced code is not set (a next hop without ENHANCEDSTATUSCODES) is not temporary – the queue bounces it at the first attempt and records `451 5.0.0`"
+		}
+		return true
+	})
+	if n == 0 {
+		msg = "undecided: Temporary has no return with one result"
+	}
+	c.Hold(rule, "SMTPError.Temporary:by-basic-code", r.FI.Decl.Pos(), msg == "", msg)
+}
